@@ -225,6 +225,15 @@ func (w *World) do(st Step) bool {
 			v = *st.Val
 		}
 		return w.sim.mutate(st.N, st.A, st.K, v)
+	case "gone":
+		// the service deletes the resource silently: later get / query requests are answered not found
+		if w.sim.lookup(st.N) == nil {
+			return false
+		}
+		w.sim.res[st.N] = &SimRes{Kind: "nf"}
+		w.sim.mut[st.N] = true
+		w.add(Rec{"e": "mutate", "key": st.N})
+		return true
 	case "reset":
 		w.mu.Lock()
 		w.resetPats = append(w.resetPats, st.Res...)
